@@ -23,6 +23,88 @@ def solve(spec, flip=False):
     return m
 
 
+_GX, _GW = np.polynomial.legendre.leggauss(40)
+_GX, _GW = (_GX + 1) / 2, _GW / 2
+_C0 = 299.792458e6
+_MU0 = 4e-7 * np.pi
+_EPS0 = 1.0 / (_MU0 * _C0 ** 2)
+
+
+def reference_fields(m, r):
+    """E and H at r of the solved pulse currents (piecewise constant on the two half-segments of each pulse) and of the
+    charges that the continuity equation puts on the segments (constant per segment side of a pulse), integrated
+    directly from the geometry with the free-space Green function, plus mirror images over ideal ground
+    (a pulse on the ground plane carries its image half itself).  Nothing of the code under test is used but the
+    pulse table and the currents."""
+    r = np.asarray(r, dtype=float)
+    om = 2 * np.pi * m.f * 1e6
+    k = om / _C0
+    mir = np.array([1.0, 1.0, -1.0])
+    E = np.zeros(3, dtype=complex)
+    H = np.zeros(3, dtype=complex)
+
+    def seg_int(a, b):
+        L = np.linalg.norm(b - a)
+        pts = a[None, :] + (b - a)[None, :] * _GX[:, None]
+        R = r[None, :] - pts
+        d = np.linalg.norm(R, axis=1)
+        g = np.exp(-1j * k * d) / d
+        gg = (-(1j * k + 1 / d) * g / d)[:, None] * R
+        return np.sum(g * _GW) * L, np.sum(gg * _GW[:, None], axis=0) * L
+
+    def cur(a, b, I):
+        nonlocal E, H
+        t = (b - a) / np.linalg.norm(b - a)
+        g, gg = seg_int(a, b)
+        E += -1j * om * _MU0 / (4 * np.pi) * I * t * g
+        H += I / (4 * np.pi) * np.cross(gg, t)
+
+    def chg(a, b, rho):
+        nonlocal E
+        g, gg = seg_int(a, b)
+        E += -rho / (4 * np.pi * _EPS0) * gg
+    for p, I in zip(m.pulses, m.current):
+        e0, e1, pt = (np.asarray(x, dtype=float) for x in (p.ends[0], p.ends[1], p.point))
+        h0, h1 = (e0 + pt) / 2, (e1 + pt) / 2
+        l0, l1 = np.linalg.norm(pt - e0), np.linalg.norm(e1 - pt)
+        cur(h0, pt, I)
+        cur(pt, h1, I)
+        chg(e0, pt, -I / (1j * om * l0))
+        chg(pt, e1, I / (1j * om * l1))
+        if m.media is not None and not p.ground.any():
+            cur(h0 * mir, pt * mir, -I)
+            cur(pt * mir, h1 * mir, -I)
+            chg(e0 * mir, pt * mir, I / (1j * om * l0))
+            chg(pt * mir, e1 * mir, -I / (1j * om * l1))
+    return E, H
+
+
+def close_points(m, spec, rng):
+    """observation points a few segment lengths from the antenna (never closer than 1.5 of the longest segment to any
+    conductor), over ground also on and just above the plane"""
+    segl = max(s.seg_len for p in m.pulses for s in p.segs)
+    nodes = np.array([np.asarray(x, dtype=float) for p in m.pulses for x in (p.ends[0], p.ends[1], p.point)])
+    ctr = nodes.mean(axis=0)
+    ext = np.max(np.linalg.norm(nodes - ctr, axis=1))
+    out = []
+    tries = 0
+    while len(out) < 4 and tries < 200:
+        tries += 1
+        d = np.array([rng.uniform(-1, 1), rng.uniform(-1, 1), rng.uniform(-1, 1)])
+        d /= np.linalg.norm(d)
+        pt = ctr + d * rng.uniform(0.3, 1.6) * (ext + 3 * segl)
+        if spec['ground']:
+            pt[2] = abs(pt[2])
+            if len(out) == 0:
+                pt[2] = 0.0
+            elif len(out) == 1:
+                pt[2] = 1e-4 * 299.8 / spec['f']
+        dist = np.min(np.linalg.norm(nodes - pt, axis=1))
+        if dist >= 1.5 * segl:
+            out.append(pt)
+    return out
+
+
 def check(spec):
     viol = []
     m = solve(spec)
@@ -33,20 +115,39 @@ def check(spec):
     pt = R * rh
     m.compute_near_field(list(pt), [1, 1, 1], [1, 1, 1], pwr=100.0)
     E, H = np.array(m.e_field[0]), np.array(m.h_field[0])
+    # reference level: the strongest field of the pattern at this distance.  Relative criteria are meaningless in a null
+    # of the pattern (a straight wire seen 8 degrees off its axis has a radial E of 2 % of the -- vanishing -- transverse
+    # one at 250 wavelengths: the 1/r^2 term of the exact field, not an error), so every tolerance is taken relative to
+    # max(local field, a quarter of the pattern maximum)
+    m.compute_far_field(Angle(5, 10, 9 if spec['ground'] else 18), Angle(0, 30, 12), pwr=100.0, dist=R)
+    emax = float(np.max(np.sqrt(abs(m.far_field.e_theta) ** 2 + abs(m.far_field.e_phi) ** 2)))
     m.compute_far_field(Angle(spec['zen'], 1, 1), Angle(spec['azi'], 1, 1), pwr=100.0, dist=R)
     et, ep = complex(m.far_field.e_theta.flat[0]), complex(m.far_field.e_phi.flat[0])
     e_far = np.sqrt(abs(et) ** 2 + abs(ep) ** 2)
     e_near = np.linalg.norm(E)
-    if e_far > 0 and abs(e_near - e_far) > 0.015 * e_far:
+    e_ref = max(e_far, 0.25 * emax)
+    if e_far > 0 and abs(e_near - e_far) > 0.015 * e_ref:
         viol.append({'id': 'near-field-does-not-merge-into-the-far-field', 'expected': float(e_far), 'observed': float(e_near),
-                     'relative': float(abs(e_near - e_far) / e_far)})
+                     'relative': float(abs(e_near - e_far) / e_ref)})
     h_near = np.linalg.norm(H)
-    if h_near > 0 and abs(e_near / h_near - 376.73) > 0.015 * 376.73:
+    if h_near > 0 and e_far >= 0.25 * emax and abs(e_near / h_near - 376.73) > 0.015 * 376.73:
         viol.append({'id': 'E/H-is-not-376.7-ohm', 'observed': float(e_near / h_near)})
-    for nm, v in (('E', E), ('H', H)):
-        rad = abs(np.dot(v, rh)) / max(np.linalg.norm(v), 1e-300)
+    for nm, v, ref in (('E', E, e_ref), ('H', H, e_ref / 376.73)):
+        rad = abs(np.dot(v, rh)) / max(np.linalg.norm(v), ref, 1e-300)
         if rad > 0.02:
             viol.append({'id': nm + '-not-transverse', 'observed': float(rad)})
+    # close to the antenna: against the independent integral of currents and charges (1 %)
+    prng = random.Random(int(spec['R_lam'] * 1000))
+    for cp in close_points(m, spec, prng):
+        m.compute_near_field(list(cp), [1, 1, 1], [1, 1, 1])
+        e, h = np.array(m.e_field[0]), np.array(m.h_field[0])
+        Er, Hr = reference_fields(m, cp)
+        ee = np.linalg.norm(e - Er) / np.linalg.norm(Er)
+        eh = np.linalg.norm(h - Hr) / np.linalg.norm(Hr)
+        if ee > 0.01 or eh > 0.01:
+            viol.append({'id': 'near-field-differs-from-the-independent-integral-of-currents-and-charges',
+                         'point': [float(x) for x in cp], 'relative_error_E_H': [float(ee), float(eh)]})
+            break
     # the same request on an object that has computed another frequency before must give the same field (the far-field
     # comparison above is made on a fresh object only; every frequency of a sweep is entitled to it)
     if not viol:
@@ -59,11 +160,6 @@ def check(spec):
         if np.linalg.norm(E2 - E) > 1e-9 * np.linalg.norm(E) or np.linalg.norm(H2 - H) > 1e-9 * np.linalg.norm(H):
             viol.append({'id': 'near-field-after-a-frequency-change-differs-from-a-fresh-run',
                          'observed': [float(np.linalg.norm(E2 - E) / np.linalg.norm(E)), float(np.linalg.norm(H2 - H) / np.linalg.norm(H))]})
-    # recorded finding C04-unequal-junction: junctions of segments of unequal length
-    uneq = any(abs(p.segs[0].seg_len / p.segs[1].seg_len - 1) > 0.01 for p in m.pulses if p.geo[0] is not p.geo[1])
-    if uneq:
-        for v in viol:
-            v['id'] += ':junction-of-unequal-segment-lengths'
     for v in viol:
         v['input'] = spec
     return viol
@@ -83,6 +179,11 @@ def gen(rng):
         if rng.random() < 0.6:
             n2 = rng.randint(2, 5)
             o = (top[0] + n2 * seg * 0.9, top[1] + 0.3 * n2 * seg, top[2] + rng.uniform(-0.2, 0.2) * n2 * seg)
+            if rng.random() < 0.4:
+                # the same segment length as the first wire (the other cases give a junction of unequal segment lengths)
+                l1 = float(np.linalg.norm(np.array(top))) / n
+                dv = np.array(o) - np.array(top)
+                o = tuple(np.array(top) + dv / np.linalg.norm(dv) * n2 * l1)
             ws.append((n2,) + (top + o if rng.random() < 0.5 else o + top) + (0.0015,))
         feed = 0 if up else n - 1
     else:
@@ -97,6 +198,9 @@ def gen(rng):
             d2 = np.cross(d, [0.2, 0.3, 1.0])
             d2 /= np.linalg.norm(d2)
             c = b + (0.7 * d2 + 0.3 * d) * n2 * seg * rng.uniform(0.6, 1.4)
+            if rng.random() < 0.4:
+                dv = c - b
+                c = b + dv / np.linalg.norm(dv) * n2 * seg
             ws.append((n2,) + ((tuple(b) + tuple(c)) if rng.random() < 0.5 else (tuple(c) + tuple(b))) + (0.002,))
         feed = n // 2
     nfirst = ws[0][0]
